@@ -19,6 +19,7 @@ type jDKG struct {
 	T         int    `json:"t"`
 	L         int    `json:"L"`
 	Order     []int  `json:"order"`
+	IDs       []int  `json:"ids"` // party identifiers in rank order
 	OK        bool   `json:"ok"`
 	Err       string `json:"err"`
 	TPKEqual  bool   `json:"tpk_equal"`  // every party reports the same public material (bytes)
@@ -30,17 +31,19 @@ type jDKG struct {
 }
 
 type jStep struct {
-	Kind    string `json:"kind"` // "request" | "sign" | "unblind" | "pok"
-	N       int    `json:"N"`
-	T       int    `json:"t"`
-	L       int    `json:"L"`
-	Pattern []int  `json:"pattern"`
-	Signer  int    `json:"signer,omitempty"`
-	Signers []int  `json:"signers,omitempty"`
-	Reload  bool   `json:"reload,omitempty"` // signer re-created from its stored share data
-	Accept  bool   `json:"accept"`
-	Panic   bool   `json:"panic"`
-	Err     string `json:"err"`
+	Kind      string `json:"kind"` // "request" | "sign" | "unblind" | "pok"
+	N         int    `json:"N"`
+	T         int    `json:"t"`
+	L         int    `json:"L"`
+	Pattern   []int  `json:"pattern"`
+	Signer    int    `json:"signer,omitempty"`
+	Signers   []int  `json:"signers,omitempty"`    // RANKS (positions in the party list), what the model is fed
+	IDs       []int  `json:"ids"`                  // party identifiers in rank order (what the API is given)
+	SignerIDs []int  `json:"signer_ids,omitempty"` // the identifiers handed to ProveKnowledgeOfSignature
+	Reload    bool   `json:"reload,omitempty"`     // signer re-created from its stored share data
+	Accept    bool   `json:"accept"`
+	Panic     bool   `json:"panic"`
+	Err       string `json:"err"`
 }
 
 func errStr(err error) string {
@@ -51,7 +54,7 @@ func errStr(err error) string {
 }
 
 func checkDKG(d *dkg, order []int) jDKG {
-	j := jDKG{Kind: "dkg", N: d.N, T: d.T, L: d.L, Order: order, OK: d.ok()}
+	j := jDKG{Kind: "dkg", N: d.N, T: d.T, L: d.L, Order: order, IDs: u16s(d.ids), OK: d.ok()}
 	if !j.OK {
 		for i := 0; i < d.N; i++ {
 			if d.errs[i] != nil {
@@ -135,11 +138,12 @@ type session struct {
 	sigs      [][]byte
 	witnesses []ps.SignatureWitness
 	okAll     bool
+	d         *dkg
 }
 
 func newProver(d *dkg) (*ps.Prover, error) {
 	p := &ps.Prover{Logger: nolog{}}
-	err := p.Init(curve, d.L, d.tpkRaw[0], ids(d.N))
+	err := p.Init(curve, d.L, d.tpkRaw[0], append([]uint16{}, d.ids...))
 	return p, err
 }
 
@@ -149,8 +153,8 @@ func signerFor(d *dkg, i int, reload bool) (*ps.TPS, error) {
 	if !reload {
 		return d.parties[i], nil
 	}
-	t := &ps.TPS{Curve: curve, Party: uint16(i + 1), Logger: nolog{}, MessageLength: d.L}
-	t.Init(ids(d.N), d.T, func([]byte, bool, uint16) {})
+	t := &ps.TPS{Curve: curve, Party: d.ids[i], Logger: nolog{}, MessageLength: d.L}
+	t.Init(append([]uint16{}, d.ids...), d.T, func([]byte, bool, uint16) {})
 	if err := t.SetShareData(d.shares[i]); err != nil {
 		return nil, err
 	}
@@ -158,8 +162,8 @@ func signerFor(d *dkg, i int, reload bool) (*ps.TPS, error) {
 }
 
 func runSession(d *dkg, pattern []int, seed uint64, record bool, reload bool) *session {
-	s := &session{pattern: pattern, okAll: true}
-	base := jStep{N: d.N, T: d.T, L: d.L, Pattern: pattern}
+	s := &session{pattern: pattern, okAll: true, d: d}
+	base := jStep{N: d.N, T: d.T, L: d.L, Pattern: pattern, IDs: u16s(d.ids)}
 	prover, err := newProver(d)
 	if err != nil {
 		s.okAll = false
@@ -213,7 +217,7 @@ func runSession(d *dkg, pattern []int, seed uint64, record bool, reload bool) *s
 		ub.Kind, ub.Signer = "unblind", i+1
 		err, ub.Panic, ub.Err = guard(func() error {
 			var e error
-			s.witnesses[i], e = prover.UnBlind(uint16(i+1), s.sigs[i], s.secret)
+			s.witnesses[i], e = prover.UnBlind(d.ids[i], s.sigs[i], s.secret)
 			return e
 		})
 		ub.Accept = err == nil && !ub.Panic
@@ -235,18 +239,21 @@ func newVerifier(d *dkg) (*ps.Verifier, error) {
 	return v, v.Init(curve, d.L, d.tpkRaw[0])
 }
 
+// provePoK: signers are RANKS; the prover is given the corresponding party identifiers.
 func provePoK(s *session, signers []uint16) (raw []byte, pok ps.SigPoK, err error, pan bool, what string) {
 	ws := make([]ps.SignatureWitness, len(signers))
 	for k, id := range signers {
 		ws[k] = s.witnesses[int(id)-1]
 	}
 	err, pan, what = guard(func() error {
-		pok = s.prover.ProveKnowledgeOfSignature(s.secret, signers, ws)
+		pok = s.prover.ProveKnowledgeOfSignature(s.secret, s.d.idsOf(signers), ws)
 		raw = pok.Bytes()
 		return nil
 	})
 	return
 }
+
+var idSets = [][]uint16{{1, 2, 4}, {2, 3, 5}, {1, 3, 4, 6}, {3, 7}, {0, 1, 2}, {255, 256, 300}, {65533, 65534, 65535}, {4, 2, 1}}
 
 var patterns = map[int][][]int{
 	1: {{1}, {0}},
@@ -266,60 +273,75 @@ func runComplete(seed uint64, thorough bool) {
 		for _, cfg := range configs {
 			N, T := cfg[0], cfg[1]
 			for L := 1; L <= 4; L++ {
-				order := identityOrder(N)
-				if r.chance(1, 2) { // another start (= delivery) order of the DKG
-					for i := N - 1; i > 0; i-- {
-						j := r.intn(i + 1)
-						order[i], order[j] = order[j], order[i]
-					}
-				}
-				d := runDKG(N, T, L, r.next(), order)
-				emit(checkDKG(d, order))
-				if !d.ok() {
-					continue
-				}
-				verifier, verr := newVerifier(d)
-				for pi, pattern := range patterns[L] {
-					s := runSession(d, pattern, r.next(), true, pi%2 == 1)
-					req := jStep{Kind: "request", N: N, T: T, L: L, Pattern: pattern, Accept: s.okAll}
-					emit(req)
-					if !s.okAll {
-						continue
-					}
-					subs := subsets(N, T, N)
-					// one subset also in reversed order (the prover takes any order of signers)
-					if len(subs) > 0 {
-						last := subs[len(subs)-1]
-						rev := make([]uint16, len(last))
-						for i := range last {
-							rev[i] = last[len(last)-1-i]
-						}
-						if len(rev) > 1 {
-							subs = append(subs, rev)
-						}
-					}
-					for _, signers := range subs {
-						st := jStep{Kind: "pok", N: N, T: T, L: L, Pattern: pattern, Signers: u16s(signers)}
-						raw, _, err, pan, what := provePoK(s, signers)
-						if pan || err != nil {
-							st.Panic, st.Err = pan, what+errStr(err)
-							emit(st)
-							continue
-						}
-						if verr != nil {
-							st.Err = "verifier init: " + verr.Error()
-							emit(st)
-							continue
-						}
-						err, st.Panic, st.Err = guard(func() error { return verifier.Verify(raw) })
-						st.Accept = err == nil && !st.Panic
-						if err != nil {
-							st.Err = err.Error()
-						}
-						emit(st)
-					}
-				}
+				completeRun(r, ids(N), T, L)
 			}
+		}
+		// party identifier sets other than 1..n (the rank of a party is its position in the list)
+		for si, idl := range idSets {
+			T := 2 + (si+round)%(len(idl)-1)
+			L := 1 + (si+round)%3
+			completeRun(r, idl, T, L)
+			if thorough && T != 2 {
+				completeRun(r, idl, 2, L)
+			}
+		}
+	}
+}
+
+// completeRun: one key generation among the parties idl (identifiers in rank order) and everything after it.
+func completeRun(r *prng, idl []uint16, T, L int) {
+	N := len(idl)
+	order := identityOrder(N)
+	if r.chance(1, 2) { // another start (= delivery) order of the DKG
+		for i := N - 1; i > 0; i-- {
+			j := r.intn(i + 1)
+			order[i], order[j] = order[j], order[i]
+		}
+	}
+	d := runDKGIDs(idl, T, L, r.next(), order)
+	emit(checkDKG(d, order))
+	if !d.ok() {
+		return
+	}
+	verifier, verr := newVerifier(d)
+	for pi, pattern := range patterns[L] {
+		s := runSession(d, pattern, r.next(), true, pi%2 == 1)
+		req := jStep{Kind: "request", N: N, T: T, L: L, Pattern: pattern, IDs: u16s(idl), Accept: s.okAll}
+		emit(req)
+		if !s.okAll {
+			continue
+		}
+		subs := subsets(N, T, N)
+		// one subset also in reversed order (the prover takes any order of signers)
+		if len(subs) > 0 {
+			last := subs[len(subs)-1]
+			rev := make([]uint16, len(last))
+			for i := range last {
+				rev[i] = last[len(last)-1-i]
+			}
+			if len(rev) > 1 {
+				subs = append(subs, rev)
+			}
+		}
+		for _, signers := range subs {
+			st := jStep{Kind: "pok", N: N, T: T, L: L, Pattern: pattern, IDs: u16s(idl), Signers: u16s(signers), SignerIDs: u16s(d.idsOf(signers))}
+			raw, _, err, pan, what := provePoK(s, signers)
+			if pan || err != nil {
+				st.Panic, st.Err = pan, what+errStr(err)
+				emit(st)
+				continue
+			}
+			if verr != nil {
+				st.Err = "verifier init: " + verr.Error()
+				emit(st)
+				continue
+			}
+			err, st.Panic, st.Err = guard(func() error { return verifier.Verify(raw) })
+			st.Accept = err == nil && !st.Panic
+			if err != nil {
+				st.Err = err.Error()
+			}
+			emit(st)
 		}
 	}
 }
